@@ -522,6 +522,46 @@ def f5(e: Engine, rep: Report):
                   if code is None else 'reset under %s' % code,
                   loc=ctx.func.loc())
 
+    # who may write the bookkeeping list: entries are added by rcptto's one
+    # append and removed only by emptying the list (`= []`) - the server
+    # sends one end-of-data reply per accepted RCPT *command*, so no entry
+    # may be dropped, merged or reordered in between
+    nw = 0
+    for mname, m in sorted(c.methods.items()):
+        for x in walk_own(m.node):
+            what = None
+            if isinstance(x, (ast.Assign, ast.AugAssign)):
+                tg = x.targets if isinstance(x, ast.Assign) else [x.target]
+                if any(ast.unparse(t) == 'self.rcpttos' for t in tg):
+                    v = x.value
+                    if not (isinstance(x, ast.Assign) and
+                            isinstance(v, ast.List) and not v.elts):
+                        what = '`%s`' % ' '.join(ast.unparse(x).split())[:60]
+                    nw += 1
+            elif isinstance(x, ast.Delete) and any(
+                    'self.rcpttos' in ast.unparse(t) for t in x.targets):
+                what = '`%s`' % ast.unparse(x)
+            elif isinstance(x, ast.Call) and \
+                    isinstance(x.func, ast.Attribute) and \
+                    ast.unparse(x.func.value) == 'self.rcpttos' and \
+                    x.func.attr in ('pop', 'remove', 'insert', 'sort',
+                                    'reverse', 'clear', 'extend'):
+                what = 'self.rcpttos.%s(...)' % x.func.attr
+                if x.func.attr == 'clear':
+                    what = None
+            if what is None:
+                continue
+            rep.evaluations += 1
+            rep.bad('F5', m.qname, 'bookkeeping list rewritten by %s' % what,
+                    'the list of RCPT commands awaiting their end-of-data '
+                    'reply is rewritten by %s: the LMTP server answers once '
+                    'per accepted RCPT command, so with an entry dropped, '
+                    'merged or moved the replies are paired with the wrong '
+                    'recipients and a left-over reply is taken for the '
+                    'answer to the next command' % what, loc=m.loc(x))
+    if nw < 2:
+        rep.error('anchor vanished: resets of LmtpClient.rcpttos (%d < 2)'
+                  % nw)
 
 
 def f6(e: Engine, rep: Report):
